@@ -284,6 +284,7 @@ pub fn case(seed: u64, st: &mut Stats) {
         }
     };
     st.count("gate.accepted");
+    st.accepted_seeds.push(st.case_seed);
     st.nontrivial(hash_str(&format!("{:?}", spec)));
     let ctx = || format!("width={:?} | spec={}", w, brief(&spec));
     st.sample(|| format!("tree with {} nodes, width {:?}", spec.count_nodes(), w));
